@@ -12,5 +12,7 @@ def run(ctx):
     stage_steps(ctx, want=('break',))
     read_input(ctx, ['read.break_stops_reading'])
     go_chain(ctx, want=('go.chain',))        # the limiter is in the chain whenever --take is given (T = 0 included)
+    from ..scen_files import files, file_sources
+    files(ctx); file_sources(ctx)      # a file argument is streamed through the same reader (a pipe given as a file is unbounded input too)
     from ..conform import conformance
     conformance(ctx, ['take'])      # the references the obligations are stated against, compared with jawk::go on concrete runs (validates the oracles; never decides)
